@@ -233,7 +233,13 @@ func (c *Ctx) detResults(key string, res *types.Tuple, args []Val) []Val {
 			} else {
 				t = app(fn, terms...)
 			}
-			v.L = append(v.L, c.define("det", l.Sort, t))
+			d := c.define("det", l.Sort, t)
+			if l.Sort == SRef {
+				if a0, ok := c.initial["alloc"]; ok && !strings.Contains(d, "!q") {
+					c.assume("true", tSel(a0, d)) // canonical objects of deterministic externs exist throughout
+				}
+			}
+			v.L = append(v.L, d)
 		}
 		c.assumeValid("true", v)
 		out = append(out, v)
@@ -700,8 +706,15 @@ func (fr *Frame) contractCall(instr ssa.Instruction, fc *FuncContract, key strin
 		}
 	}
 	old := st.clone()
+	// the callee may allocate: the allocation set grows
+	a0 := c.allocComp(st)
+	a1 := c.fresh("alloc", arrSort(SRef, SBool))
+	c.assume("true", fmt.Sprintf("(forall ((r Ref)) (! (=> (select %s r) (select %s r)) :pattern ((select %s r))))", a0, a1, a1))
+	st.heap["alloc"] = a1
+	c.havocAlloc = a1
 	// havoc
 	fr.havocModifies(fc, env, st, R)
+	c.havocAlloc = ""
 	// results
 	resT := sig.Results()
 	if len(fc.Results) != resT.Len() {
@@ -729,6 +742,15 @@ func (fr *Frame) contractCall(instr ssa.Instruction, fc *FuncContract, key strin
 	penv := &Env{c: c, st: st, old: old, vars: post, pkg: pkg, guard: R}
 	for _, en := range fc.Ensures {
 		c.assume(R, penv.evalBool(en.E))
+	}
+	for _, ow := range fc.Owns {
+		when := "true"
+		if ow.When != nil {
+			when = penv.evalBool(ow.When)
+		}
+		x, y := penv.eval(ow.X), penv.eval(ow.Y)
+		c.declFun("ownerOf", SRef, SRef)
+		c.assume(tAnd(R, when), tEq(app("ownerOf", x.L[0]), y.L[0]))
 	}
 	return packResults(rv, resT)
 }
@@ -1126,6 +1148,9 @@ func (c *Ctx) havocLoc(st *State, loc Loc) {
 			if strings.HasSuffix(k.Path, "#len") || strings.HasSuffix(k.Path, "#off") {
 				c.assume("true", app("bvult", nv, lenBound))
 			}
+			if k.Sort == SRef && c.havocAlloc != "" {
+				c.assume("true", tSel(c.havocAlloc, nv))
+			}
 			// a designator that evaluates to nil denotes no location
 			c.setComp(st, k.Path, sort, tStore(cur, loc.Ref, tIte(tEq(loc.Ref, "null"), tSel(cur, loc.Ref), nv)))
 		}
@@ -1140,12 +1165,18 @@ func (c *Ctx) havocLoc(st *State, loc Loc) {
 			}
 			c.compSort[k.Path] = sort
 			st.heap[k.Path] = c.freshComp(k.Path, sort)
+			if c.havocAlloc != "" {
+				c.closedAxiom(k.Path, sort, st.heap[k.Path], c.havocAlloc)
+			}
 		}
 	case "fieldset":
 		for _, k := range loc.Keys {
 			sort := arrSort(SRef, k.Sort)
 			cur := c.comp(st, k.Path, sort)
 			nv := c.freshComp(k.Path, sort)
+			if c.havocAlloc != "" {
+				c.closedAxiom(k.Path, sort, nv, c.havocAlloc)
+			}
 			c.assume("true", fmt.Sprintf("(forall ((r Ref)) (! (=> (not %s) (= (select %s r) (select %s r))) :pattern ((select %s r))))", loc.In("r"), nv, cur, nv))
 			c.compSort[k.Path] = sort
 			st.heap[k.Path] = nv
@@ -1157,6 +1188,10 @@ func (c *Ctx) havocLoc(st *State, loc Loc) {
 			nv := c.fresh("hv", k.Sort)
 			if strings.HasPrefix(k.Path, "ML|") {
 				c.assume("true", app("bvult", nv, lenBound))
+			}
+			if strings.HasPrefix(k.Path, "MV|") && strings.HasSuffix(k.Sort, " Ref)") && c.havocAlloc != "" {
+				ks := strings.TrimSuffix(strings.TrimPrefix(k.Sort, "(Array "), " Ref)")
+				c.assume("true", fmt.Sprintf("(forall ((k %s)) (! (select %s (select %s k)) :pattern ((select %s k))))", ks, c.havocAlloc, nv, nv))
 			}
 			c.setComp(st, k.Path, sort, tStore(cur, loc.Ref, tIte(tEq(loc.Ref, "null"), tSel(cur, loc.Ref), nv)))
 		}
@@ -1170,6 +1205,9 @@ func (c *Ctx) havocLoc(st *State, loc Loc) {
 			c.assume("true", fmt.Sprintf("(forall ((i (_ BitVec 64))) (! (=> (not (and (bvule %s i) (bvult i %s))) (= (select %s i) (select %s i))) :pattern ((select %s i))))", loc.Lo, loc.Hi, row, old, row))
 			if strings.HasSuffix(k.Path, "#len") || strings.HasSuffix(k.Path, "#off") {
 				c.assume("true", fmt.Sprintf("(forall ((i (_ BitVec 64))) (! (bvult (select %s i) %s) :pattern ((select %s i))))", row, lenBound, row))
+			}
+			if k.Sort == SRef && c.havocAlloc != "" {
+				c.assume("true", fmt.Sprintf("(forall ((i (_ BitVec 64))) (! (select %s (select %s i)) :pattern ((select %s i))))", c.havocAlloc, row, row))
 			}
 			c.setComp(st, k.Path, sort, tStore(cur, loc.Ref, row))
 		}
@@ -1658,6 +1696,7 @@ func (fr *Frame) havocLoop(li *loopInfo, cur *State, R string) *State {
 		}
 	}
 	var keys []string
+	var closeLater []string
 	for k := range ws.comps {
 		keys = append(keys, k)
 	}
@@ -1688,6 +1727,7 @@ func (fr *Frame) havocLoop(li *loopInfo, cur *State, R string) *State {
 			nv := c.freshComp(k, ws.comps[k])
 			c.assume("true", c.frameFormula(k, li.headAlloc, li.allowed[k], nv, old))
 			st.heap[k] = nv
+			closeLater = append(closeLater, k)
 			continue
 		}
 		if k == "alloc" {
@@ -1701,6 +1741,10 @@ func (fr *Frame) havocLoop(li *loopInfo, cur *State, R string) *State {
 		// make sure the entry version exists before it is replaced (old() and entry snapshots refer to it)
 		c.comp(cur, k, ws.comps[k])
 		st.heap[k] = c.freshComp(k, ws.comps[k])
+		closeLater = append(closeLater, k)
+	}
+	for _, k := range closeLater {
+		c.closedAxiom(k, ws.comps[k], st.heap[k], c.allocComp(st))
 	}
 	for a := range ws.allocs {
 		if v, ok := fr.vals[a]; ok && v.P != nil && v.P.Kind == PCell {
@@ -1731,7 +1775,13 @@ func (fr *Frame) havocLoop(li *loopInfo, cur *State, R string) *State {
 		if name == "" {
 			name = phi.Name()
 		}
-		li.phis[phi] = c.freshVal("phi_"+name, phi.Type())
+		pv := c.freshVal("phi_"+name, phi.Type())
+		for k, l := range c.leaves(phi.Type()) {
+			if l.Sort == SRef {
+				c.assume("true", tSel(c.allocComp(st), pv.L[k])) // locals hold allocated references (or nil)
+			}
+		}
+		li.phis[phi] = pv
 	}
 	return st
 }
